@@ -55,7 +55,7 @@ RaCases == RaCasesOf(0) \cup RaCasesOf(1)
 \* peers: another session of the same kind on the same stream exists when the id is kicked (one publisher per stream)
 KickCases == {[Dflt EXCEPT !.kind = "kick", !.pd = x.pd, !.which = w, !.peers = x.n] :
                 x \in {[pd |-> p, n |-> n] : p \in KickPds, n \in {0, 1}} \ {[pd |-> p, n |-> 1] : p \in {"rtmp_pub", "rtsp_pub"}},
-                w \in {"real", "unknown"}}
+                w \in {"real", "unknown", "prefix"}}     \* prefix: the id of the session without its last character
 BlCases == {[Dflt EXCEPT !.kind = "bl", !.dur = d, !.fam = f, !.probes = [i \in 1..(d + 2) |-> i - 1]] : d \in Durs, f \in BlFams}
 RdCases == {[Dflt EXCEPT !.kind = "rd", !.req = r, !.esc = RdEscapes(r)] : r \in SeqsUpTo(ReqTokens, RdLen)}
 WrCases == {[Dflt EXCEPT !.kind = "wr", !.name = n, !.proto = "rtmp", !.esc = WrEscapes(n)] : n \in SeqsUpTo(NameSegs, WrLen)}
